@@ -42,6 +42,9 @@ type Conn struct {
 	DeadlineErr bool
 	// DeadlineDelay: SetDeadline takes this long (virtual time) before it takes effect and returns
 	DeadlineDelay time.Duration
+	// ServeBufferedFirst: bytes already received are handed out whatever the read deadline says (a connection wrapped by a
+	// buffering reader - a protocol sniffer, a PROXY-protocol listener - serves what it has peeked before it asks the socket)
+	ServeBufferedFirst bool
 }
 
 var errDeadline = errors.New("vnet: deadline call reports an error")
@@ -89,6 +92,11 @@ func passed(t time.Time) bool { return !t.IsZero() && !vs.Now().Before(t) }
 
 func (c *Conn) Read(p []byte) (int, error) {
 	vs.WaitUntil("conn.Read", func() bool { return len(c.in) > 0 || c.end != nil || c.closed || c.readShut || passed(c.rdl) })
+	if c.ServeBufferedFirst && len(c.in) > 0 && !c.closed && !c.readShut {
+		n := copy(p, c.in)
+		c.in = c.in[n:]
+		return n, nil
+	}
 	switch {
 	case c.closed:
 		return 0, net.ErrClosed
